@@ -746,11 +746,28 @@ def _(v):
             vis.prove("frame.other_elements." + f, z3.Select(vis.post[key], fresh) == z3.Select(vis.pre[key], fresh),
                       assuming=(fresh != i, fresh != j))
 
+        # the running sums the code holds are the prefix sums (loop invariant, assumed in this state): rewrite them so
+        # that the code's Jacobi coordinate is literally the specification's, and give the algebra back end only the
+        # hypotheses it needs (fewer hypotheses = a stronger statement)
+        sub = [(v.eng.local(st, "Mj"), SM(j))] + [(v.eng.local(st, "Rj" + f), SR[f](j)) for f in XYZ]
+        for a, b in sub:
+            vis.prove("invariant_instance.%s" % a.decl().name().split("!")[0].split("_")[-1], a == b)
+
+        def focused(name, goal, hyp):
+            from engine.csym import Obligation
+            g = z3.substitute(goal, *sub)
+            hs = [z3.substitute(h, *sub) for h in vis.unguarded(st.hyps(), hyp)
+                  if not z3.is_quantifier(h) and "m_sqrt" in h.sexpr()]
+            ob = Obligation(v.eng.prefix + A.obname(vis, name), hs + [c.eps == 0] + list(hyp), g, "post")
+            ob.meta["order"] = POLY
+            ob.meta["ctx"] = v
+            v.eng.obligations.append(ob)
+
         def case(tag, hyp, want_i, want_j):
             for n, (f, key) in enumerate(zip(XYZ, keys)):
-                vis.prove("body.%s.i.%s" % (tag, f), vis.delta(key, i, hyp) == want_i[n], assuming=hyp, order=POLY)
+                focused("body.%s.i.%s" % (tag, f), vis.delta(key, i, hyp) == want_i[n], hyp)
                 if want_j is not None:
-                    vis.prove("body.%s.j.%s" % (tag, f), vis.delta(key, j, hyp) == want_j[n], assuming=hyp, order=POLY)
+                    focused("body.%s.j.%s" % (tag, f), vis.delta(key, j, hyp) == want_j[n], hyp)
         zero = [z3.RealVal(0)] * 3
         # Jacobi Kepler term (spec): needs Q_j, defined for j > 1
         q = Q(j)
